@@ -599,15 +599,25 @@ void ep2_mul_sim_lot(ep2_t r, const ep2_t p[], const bn_t k[], size_t n) {
 	size_t l, _l[4];
 
 	if (n == 0) {
+		RLC_FREE(naf);
 		ep2_set_infty(r);
 		return;
 	}
 
 	bn_null(q);
 	bn_null(x);
+	for (j = 0; j < 4; j++) {
+		bn_null(_k[j]);
+	}
 
 	if (n <= 10) {
 		ep2_t *_p = RLC_ALLOCA(ep2_t, 4 * n);
+
+		if (_p != NULL) {
+			for (i = 0; i < 4 * n; i++) {
+				ep2_null(_p[i]);
+			}
+		}
 
 		RLC_TRY {
 			if (naf == NULL || _p == NULL) {
@@ -616,10 +626,8 @@ void ep2_mul_sim_lot(ep2_t r, const ep2_t p[], const bn_t k[], size_t n) {
 			bn_new(q);
 			bn_new(x);
 			for (j = 0; j < 4; j++) {
-				bn_null(_k[j]);
 				bn_new(_k[j]);
 				for (i = 0; i < n; i++) {
-					ep2_null(_p[4*i + j]);
 					ep2_new(_p[4*i + j]);
 				}
 			}
@@ -669,7 +677,7 @@ void ep2_mul_sim_lot(ep2_t r, const ep2_t p[], const bn_t k[], size_t n) {
 			bn_free(x);
 			for (j = 0; j < 4; j++) {
 				bn_free(_k[j]);
-				for (i = 0; i < n; i++) {
+				for (i = 0; _p != NULL && i < n; i++) {
 					ep2_free(_p[4*i + j]);
 				}
 			}
@@ -684,6 +692,11 @@ void ep2_mul_sim_lot(ep2_t r, const ep2_t p[], const bn_t k[], size_t n) {
 		ep2_null(t);
 		ep2_null(u);
 		ep2_null(v);
+		if (_p != NULL) {
+			for (i = 0; i < 4 * c; i++) {
+				ep2_null(_p[i]);
+			}
+		}
 
 		RLC_TRY {
 			if (naf == NULL || _p == NULL) {
@@ -696,10 +709,8 @@ void ep2_mul_sim_lot(ep2_t r, const ep2_t p[], const bn_t k[], size_t n) {
 			ep2_new(u);
 			ep2_new(v);
 			for (i = 0; i < 4; i++) {
-				bn_null(_k[i]);
 				bn_new(_k[i]);
 				for (j = 0; j < c; j++) {
-					ep2_null(_p[i*c + j]);
 					ep2_new(_p[i*c + j]);
 					ep2_set_infty(_p[i*c + j]);
 				}
@@ -771,7 +782,7 @@ void ep2_mul_sim_lot(ep2_t r, const ep2_t p[], const bn_t k[], size_t n) {
 			ep2_free(v);
 			for (i = 0; i < 4; i++) {
 				bn_free(_k[i]);
-				for (j = 0; j < c; j++) {
+				for (j = 0; _p != NULL && j < c; j++) {
 					ep2_free(_p[i*c + j]);
 				}
 			}
